@@ -15,6 +15,8 @@ for d in /verif/seeded/C??-m?; do
   nv=$(echo "$res" | grep -c "^VIOLATION")
   first=$(echo "$res" | grep "^VIOLATION" | head -1 | sed 's/.*(\(.*\))$/\1/' | cut -c1-160)
   [ "$nv" -gt 0 ] && verdict=DETECTED || verdict=MISSED
+  # a seed whose patch no longer applies (the code it mutates was rewritten by a later fix) is stale, not missed
+  echo "$res" | grep -q "PATCH DOES NOT APPLY" && verdict=STALE-PATCH-NO-LONGER-APPLIES
   echo "$s check=$id $verdict violations>=$nv  $first" >> $out.tmp
 done
 mv $out.tmp $out
